@@ -127,6 +127,8 @@ type REvent struct {
 	Recv   string // receiver entity (methods) or argument entity ("arg")
 	Callee *Func  // "arg": the called function
 	Arg    ast.Expr
+	// Inlined: the callee is interpreted in this context; the argument is judged there.
+	Inlined bool
 	S      S
 	ents   map[ast.Expr]string
 }
@@ -145,6 +147,21 @@ type RInterp struct {
 	untrack map[types.Object]bool
 	// Forks counts non-refining condition leaves (evidence only).
 	Forks int
+	// NoInline switches interpretation of helpers in place off.
+	NoInline bool
+	// Overflowed is set on the root interpreter when an inlined run exceeded
+	// its state bound.
+	Overflowed bool
+	depth      int
+	stack      []*Func
+	root       *RInterp
+}
+
+func (ri *RInterp) rootI() *RInterp {
+	if ri.root != nil {
+		return ri.root
+	}
+	return ri
 }
 
 // Mask returns the kind set of an entity.
@@ -304,6 +321,11 @@ func (ri *RInterp) entOf(e ast.Expr, s S, ents map[ast.Expr]string) string {
 		// sf.Type of a StructField: the field's type entity
 		if RType(info.TypeOf(x.X)) == "StructField" && x.Sel.Name == "Type" {
 			return ri.entOf(x.X, s, ents)
+		}
+	}
+	if call, ok := e.(*ast.CallExpr); ok {
+		if v := s.Get("re:" + ri.at(call) + "#0"); v != "" {
+			return v
 		}
 	}
 	if ta, ok := e.(*ast.TypeAssertExpr); ok && ta.Type != nil && RType(info.TypeOf(e)) == "Value" {
